@@ -20,7 +20,7 @@ func c04try(pkt, key []byte) (m *messages.Encrypted, err error, pan bool, pm, st
 
 func c04(c *wk.Ctx) {
 	idx := 0
-	npk := c.Pick(48, 1200)
+	npk := c.Pick(96, 2000)
 	for p := 0; p < npk; p++ {
 		if c.Mine(idx) {
 			r := c.Rand(idx)
